@@ -13,6 +13,8 @@ Theorem C17_every_entry_is_its_specification : forallb P_C17.entry_ok P_C17.cat 
 Proof. exact P_C17.every_entry_is_its_specification. Qed.
 Theorem C17_swizzle_catalogue_complete : forallb P_C17.has P_C17.required_swizzles = true.
 Proof. exact P_C17.swizzle_catalogue_complete. Qed.
+Theorem C17_matrix_constructor_catalogue_complete : forallb P_C17.has P_C17.required_matrix = true /\ List.length P_C17.required_matrix = 126%nat.
+Proof. exact P_C17.matrix_catalogue_complete. Qed.
 Theorem C17_catalogue_sizes : (3300 <=? P_C17.count_prefix "swz_") && (100 <=? P_C17.count_prefix "ctor_") && (160 <=? P_C17.count_prefix "swzw_") = true.
 Proof. exact P_C17.catalogue_sizes. Qed.
 (* what the specification functions say, on examples (non-vacuity / readability) *)
